@@ -420,8 +420,11 @@ def _construct_dsdl_definitions_from_namespaces(
     source_file_paths: set[tuple[Path, Path]] = set()  # index of all file paths already found
     for root_namespace_path in root_namespace_paths:
         for p in root_namespace_path.rglob(DSDL_FILE_GLOB):
-            source_file_paths.add((p, root_namespace_path))
+            if p.is_file():  # A directory may be named like a definition file
+                source_file_paths.add((p, root_namespace_path))
         for p in root_namespace_path.rglob(DSDL_FILE_GLOB_LEGACY):
+            if not p.is_file():
+                continue
             source_file_paths.add((p, root_namespace_path))
             _logger.warning(
                 "File uses deprecated extension %r, please rename to use %r: %s",
